@@ -44,7 +44,7 @@ func TestC06(t *testing.T) {
 		p := kit.ProfileIndex
 		if rapid.IntRange(0, 2).Draw(t, "refheavy") == 0 {
 			// indexes over reference columns: values change by pruning and garbage collection too
-			p.Refs, p.MinTables, p.ScalarBias = 5, 2, 2
+			p.Refs, p.MinTables, p.ScalarBias, p.Indexes = 5, 2, 2, 1
 		}
 		runHistory(t, "C06", p, cfgC06, 20, c06After)
 	})
